@@ -52,6 +52,11 @@ func At(ll orb.Point, z Zoom) Tile {
 		Z: z,
 	}
 
+	// longitude 180 is the right edge of the last column, not a new one.
+	if max := uint32(1)<<uint32(z) - 1; t.X > max {
+		t.X = max
+	}
+
 	return t
 }
 
